@@ -992,6 +992,7 @@ func swarmCfg(r *rng, prop string) RunCfg {
 	}
 	if prop == "C09" {
 		c.CPUVary = r.pct(50)
+		c.RandVary = r.pct(70)
 	}
 	return c
 }
